@@ -2,8 +2,8 @@
 
 The patterns are taken live from athlib.codes on every run and parsed with the interpreter's own
 re._parser.  Supported constructs: literals, classes (ranges, \\d, \\s, negation), ANY, bounded and
-unbounded greedy/lazy repeats, groups, alternation, ^ and $ (Python semantics: $ matches at the end
-or just before a final newline).  Anything else -> MachineryError (exit 2).
+unbounded greedy/lazy repeats, groups, alternation, conditionals on a group (?(n)yes|no), ^ / \\A, $ (Python
+semantics: at the end or just before a final newline) and \\Z.  Anything else -> MachineryError (exit 2).
 
 Acceptance is that of `pattern.match(s) is not None` (anchored at the start, prefix match).
 """
@@ -105,9 +105,63 @@ class NFA(object):
         return self.n - 1
 
 
+def _cond_groups(items, out):
+    """group numbers tested by (?(n)yes|no) anywhere in the parse tree"""
+    for op, av in items:
+        if op is sre_c.GROUPREF_EXISTS:
+            out.add(av[0])
+            _cond_groups(av[1], out)
+            if av[2] is not None:
+                _cond_groups(av[2], out)
+        elif op is sre_c.SUBPATTERN:
+            _cond_groups(av[3], out)
+        elif op is sre_c.BRANCH:
+            for alt in av[1]:
+                _cond_groups(alt, out)
+        elif op in (sre_c.MAX_REPEAT, sre_c.MIN_REPEAT):
+            _cond_groups(av[2], out)
+    return out
+
+
+def _expand_conditions(nfa, start, final, refs):
+    """(?(n)yes|no) is regular: whether group n has taken part is one bit per tested group.  The construction marks the
+    end of every tested group with an ('S', n) edge and guards the two arms with ('G+', n) / ('G-', n); here the NFA is
+    multiplied by the sets of groups that have taken part and the marks / guards become plain epsilon edges."""
+    import itertools
+    refs = sorted(refs)
+    subsets = [frozenset(c) for r in range(len(refs) + 1) for c in itertools.combinations(refs, r)]
+    out = NFA()
+    ident = {}
+
+    def nid(q, G):
+        if (q, G) not in ident:
+            ident[(q, G)] = out.new()
+        return ident[(q, G)]
+    s0 = nid(start, frozenset())
+    for G in subsets:
+        for a, ai, b in nfa.sym:
+            out.sym.append((nid(a, G), ai, nid(b, G)))
+        for a, b, k in nfa.eps:
+            if isinstance(k, tuple):
+                tag, g = k
+                if tag == 'S':
+                    out.eps.append((nid(a, G), nid(b, G | {g}), ''))
+                elif tag == 'G+' and g in G:
+                    out.eps.append((nid(a, G), nid(b, G), ''))
+                elif tag == 'G-' and g not in G:
+                    out.eps.append((nid(a, G), nid(b, G), ''))
+            else:
+                out.eps.append((nid(a, G), nid(b, G), k))
+    f = out.new()
+    for G in subsets:
+        out.eps.append((nid(final, G), f, ''))
+    return out, s0, f
+
+
 def build(pattern_text, flags, atoms):
     tree = sre_parse.parse(pattern_text, flags)
     nfa = NFA()
+    refs = _cond_groups(tree, set())
 
     def atom_index(cs):
         key = (cs.members, cs.negated)
@@ -129,7 +183,22 @@ def build(pattern_text, flags, atoms):
             group, add_flags, del_flags, sub = av
             if add_flags or del_flags:
                 raise MachineryError('inline flags are not supported')
-            return seq(sub, s)
+            e = seq(sub, s)
+            if group in refs:              # a group some (?(n)..) tests: mark that it has taken part
+                t = nfa.new()
+                nfa.eps.append((e, t, ('S', group)))
+                return t
+            return e
+        if op is sre_c.GROUPREF_EXISTS:
+            g, yes, no = av
+            t = nfa.new()
+            a = nfa.new()
+            nfa.eps.append((s, a, ('G+', g)))
+            nfa.eps.append((seq(yes, a), t, ''))
+            b = nfa.new()
+            nfa.eps.append((s, b, ('G-', g)))
+            nfa.eps.append((seq(no if no is not None else [], b), t, ''))
+            return t
         if op is sre_c.BRANCH:
             t = nfa.new()
             for alt in av[1]:
@@ -172,6 +241,8 @@ def build(pattern_text, flags, atoms):
 
     start = nfa.new()
     final = seq(tree, start)
+    if refs:
+        return _expand_conditions(nfa, start, final, refs)
     return nfa, start, final
 
 
@@ -283,6 +354,8 @@ def representatives(cls, k=3):
 
 def translate(patterns, extra_split=()):
     """patterns: dict name -> compiled re.  Returns dict with classes, per-pattern eps-free NFAs."""
+    if not any(set(x) == {10} for x in extra_split):
+        extra_split = tuple(extra_split) + ({10},)          # '\n' is always a class of its own (the `$` semantics)
     atoms = {}
     nfas = {}
     for name, pat in patterns.items():
